@@ -502,6 +502,7 @@ func apiFamily(raw json.RawMessage) Result {
 		defer func() { textwire.VerifGate = nil }()
 		results := map[int]string{}
 		var rmu sync.Mutex
+		unrealised := false
 		done := make(chan int, len(c.Ops))
 		for _, o := range c.Ops {
 			o := o
@@ -520,11 +521,16 @@ func apiFamily(raw json.RawMessage) Result {
 			<-ready
 			// let the goroutine run to its first critical gate (or to completion)
 			if !waitParkedOrDone(s, done, o.G, results, &rmu) {
-				res.Status, res.Msg = "skip", "goroutine did not reach a gate"
-				return res
+				// the goroutine neither reached a gate nor finished: it waits for a goroutine that is parked (a lock, a
+				// shared computation). Waiting is no fault; the schedule cannot be enforced on this implementation, so the
+				// gates are opened and only the results are judged.
+				unrealised = true
 			}
 		}
 		for _, st := range c.Sched {
+			if unrealised {
+				break
+			}
 			if st.Step != "readMode" && st.Step != "writeMode" {
 				continue
 			}
@@ -538,12 +544,14 @@ func apiFamily(raw json.RawMessage) Result {
 			}
 			close(ch)
 			if !waitParkedOrDone(s, done, st.G, results, &rmu) {
-				res.Status, res.Msg = "skip", "goroutine did not reach the next gate"
-				return res
+				unrealised = true
 			}
 		}
+		if unrealised {
+			res.Stats["unrealised-schedule"] = 1
+		}
 		// release anything still parked (extra gates the model does not know)
-		for tries := 0; tries < 50; tries++ {
+		for tries := 0; tries < 1500; tries++ {
 			rmu.Lock()
 			n := len(results)
 			rmu.Unlock()
